@@ -614,6 +614,11 @@ func init() {
 	}
 }
 
+// body of the last name-capture case: a local m shadows one of the two free variables of the computed value
+func fn2body(vr func(string) N, bin func(string, N, N) N, iv func(int) N) []N {
+	return []N{{"k": "expr", "e": N{"k": "assign", "n": "m", "e": iv(7), "pp": false}}, {"k": "expr", "e": bin("+", vr("cq"), bin("*", vr("m"), iv(100)))}}
+}
+
 // exhaustive small scope: operator tables over a literal vocabulary, and every pair of binary operators in both
 // nestings (precedence / associativity), each as its own one-program history
 func init() {
@@ -790,6 +795,34 @@ func init() {
 					id++
 					w.Write(N{"id": id, "cfg": N{"div0": false, "mode": -1, "fuel": 10, "loopmax": 5}, "faces": []int{}, "progs": hist})
 				}
+			}
+		}
+		// name capture: a computed value or function written against a global variable, read from a frame that binds the same name
+		{
+			fn := func(name string, ps []string, body ...N) N { return N{"k": "func", "n": name, "ps": ps, "b": body} }
+			comp := func(name string, e N) N { return stmt(N{"k": "computed", "n": name, "e": e, "pp": false}) }
+			call := func(f string, args ...N) N {
+				if args == nil {
+					args = []N{}
+				}
+				return N{"k": "call", "f": f, "args": args, "pp": false}
+			}
+			ret := func(e N) N { return N{"k": "return", "has": true, "e": e} }
+			ifs := func(c N, t ...N) N { return N{"k": "if", "c": c, "t": t, "e": []N{}, "elif": false} }
+			this := func(n string) N { return N{"k": "this", "n": n, "pp": false} }
+			hists := [][][]N{
+				{{comp("cq", bin("+", vr("n"), iv(1))), asg("n", iv(10)), fn("g1", []string{"n"}, stmt(vr("cq"))), stmt(call("g1", iv(100)))}},
+				{{comp("cq", bin("+", vr("n"), iv(1))), asg("n", iv(10)), fn("g1", []string{"m"}, asg("n", vr("m")), stmt(vr("cq"))), stmt(bin("+", bin("*", call("g1", iv(100)), iv(1000)), vr("n")))}},
+				{{fn("h1", []string{}, stmt(bin("+", vr("n"), iv(1)))), asg("n", iv(10)), fn("g1", []string{"n"}, stmt(call("h1"))), stmt(call("g1", iv(100)))}},
+				{{comp("cq", bin("*", vr("n"), iv(2))), asg("n", iv(3))}, {fn("g1", []string{"n"}, ifs(bin(">", vr("n"), iv(5)), ret(vr("cq"))), stmt(call("g1", bin("+", vr("n"), iv(1)))))}, {stmt(call("g1", iv(0)))}},
+				{{comp("k1", bin("+", vr("x"), iv(1))), comp("k2", bin("+", vr("k1"), this("x"))), stmt(N{"k": "computedAttr", "n": "k2", "a": "x", "ac": []string{"x"}, "e": iv(100), "pp": false}), asg("x", iv(1)), stmt(vr("k2"))}},
+				{{fn("g1", []string{"n"}, comp("lq", bin("+", vr("n"), iv(1))), stmt(vr("lq"))), asg("n", iv(5)), stmt(call("g1", iv(7)))}},
+				{{asg("n", iv(1)), fn("g1", []string{}, asg("n", iv(2)), stmt(vr("n"))), stmt(bin("+", bin("*", call("g1"), iv(10)), vr("n")))}},
+				{{comp("cq", bin("+", vr("n"), vr("m"))), asg("n", iv(1)), asg("m", iv(2)), fn("g1", []string{"n"}, fn2body(vr, bin, iv)...), stmt(call("g1", iv(50)))}},
+			}
+			for _, h := range hists {
+				id++
+				w.Write(N{"id": id, "cfg": N{"div0": false, "mode": -1, "fuel": 40, "loopmax": 12}, "faces": []int{}, "progs": h})
 			}
 		}
 		emitSummary(N{"histories": id})
